@@ -6,13 +6,17 @@ package main
 import (
 	"bytes"
 	"context"
+	"encoding/json"
 	"errors"
 	"fmt"
 	"io"
+	"os"
+	"os/exec"
 	"strings"
 	"sync"
 	"time"
 
+	blocks "github.com/ipfs/go-block-format"
 	"github.com/ipfs/go-cid"
 	"github.com/libp2p/go-libp2p/core/network"
 	"github.com/libp2p/go-libp2p/core/peer"
@@ -29,8 +33,9 @@ import (
 )
 
 type hostileCase struct {
-	Hex  string   `json:"hex"`
-	Tags []string `json:"tags,omitempty"`
+	Hex  string    `json:"hex"`
+	Bomb *bombDesc `json:"bomb,omitempty"` // resource bomb: the input is rebuilt from this description, run in a child process
+	Tags []string  `json:"tags,omitempty"`
 }
 
 const waitDeadline = 10 * time.Second
@@ -314,6 +319,244 @@ func checkDelivered(m message.GraphSyncMessage) (bad [][2]string) {
 	return
 }
 
+// what one input made the implementation do, as Coq terms (JSON: a child process hands it to its parent)
+type hparts struct {
+	First     string   `json:"first"`
+	FirstKind string   `json:"first_kind"`
+	Seq       []string `json:"seq"`
+	Msgs      []string `json:"msgs"`
+	Errors    int      `json:"errors"`
+	Reset     bool     `json:"reset"`
+	Serving   bool     `json:"serving"`
+	Panic     bool     `json:"panic"`
+	Oracle    string   `json:"oracle"`
+	Reruns    int      `json:"reruns"`
+	Viol      [][2]string `json:"viol"`
+}
+
+// observeCase: the real FromNet (once, and repeatedly on one reader) and the real handleNewStream on `input`
+func observeCase(hn *harness, idx int, input []byte) (hparts, error) {
+	var hp hparts
+	mh := hn.mh
+	rd := &renderer{}
+	orc := newOracle()
+	scanOracle(orc, input)
+
+	first := fromNet(mh, input)
+	if first.kind == "panic" {
+		hp.Viol = append(hp.Viol, [2]string{"panic in FromNet: " + first.what, "panic-fromnet"})
+	}
+	if first.kind == "msg" {
+		orc.addMsg(first.msg)
+		hp.Viol = append(hp.Viol, checkDelivered(first.msg)...)
+	}
+
+	// the whole input read by successive FromNet calls on one reader (two kinds of reader must agree)
+	for k, sr := range []io.Reader{bytes.NewBuffer(append([]byte(nil), input...)), &dribble{b: input}} {
+		var ts []string
+		for _, g := range fromNetSeq(mh, sr, len(input)+2) {
+			if g.kind == "msg" {
+				orc.addMsg(g.msg)
+				hp.Viol = append(hp.Viol, checkDelivered(g.msg)...)
+			}
+			if g.kind == "panic" {
+				hp.Viol = append(hp.Viol, [2]string{"panic in FromNet: " + g.what, "panic-fromnet"})
+			}
+			ts = append(ts, g.term(rd))
+		}
+		if k == 0 {
+			hp.Seq = ts
+		} else if strings.Join(ts, ";") != strings.Join(hp.Seq, ";") {
+			hp.Viol = append(hp.Viol, [2]string{"successive FromNet calls give different results for different chunking of the same bytes", "fromnet-chunking"})
+		}
+	}
+
+	o, err := hn.observe(idx, 0, input)
+	if err != nil {
+		return hp, err
+	}
+	if o.hang != "" {
+		// a wait expired: rerun the case once before concluding
+		hp.Reruns++
+		firstHang := o.hang
+		if o, err = hn.observe(idx, 1, input); err != nil {
+			return hp, err
+		}
+		if o.hang != "" {
+			hp.Viol = append(hp.Viol, [2]string{"hang: " + firstHang + "; on rerun: " + o.hang, "hang"})
+		}
+	}
+	for _, m := range o.msgs {
+		orc.addMsg(m)
+		hp.Msgs = append(hp.Msgs, rd.msg(m))
+		hp.Viol = append(hp.Viol, checkDelivered(m)...)
+	}
+	hp.First = first.term(rd)
+	hp.FirstKind = first.kind
+	if len(rd.odd) > 0 {
+		hp.Viol = append(hp.Viol, [2]string{"delivered message with " + oddKey(rd.odd), "odd-value"})
+	}
+	hp.Errors, hp.Reset, hp.Serving, hp.Panic = o.errors, o.reset, o.serving, first.kind == "panic"
+	hp.Oracle = orc.term()
+	return hp, nil
+}
+
+// ---- resource bombs: run in a child process, because a Go stack overflow or an out-of-memory kill
+// is not a panic and would take the driver down with it ----
+
+type bombDesc struct {
+	Kind string `json:"kind"` // nest-sel nest-ext nest-meta alloc big-frame
+	N    int    `json:"n"`    // nesting depth / variant / frame body size
+}
+
+var bombID = []byte{0xb0, 0x0b, 1, 2, 3, 4, 5, 6, 7, 8, 9, 10, 11, 12, 13, 14}
+
+func frameOf(body []byte) []byte { return append(varint.ToUvarint(uint64(len(body))), body...) }
+
+func nested(n int, leaf []byte) []byte {
+	b := bytes.Repeat([]byte{0x81}, n)
+	return append(b, leaf...)
+}
+
+func (d bombDesc) input(mh *v2.MessageHandler) ([]byte, error) {
+	cat := func(parts ...[]byte) []byte { return bytes.Join(parts, nil) }
+	h := func(s string) []byte { return unhex(s) }
+	reqHead := cat(h("a163677332a16372657181a362696450"), bombID) // {"gs2":{"req":[{"id":<16>,
+	typeNew := h("6474797065616e")                                    // "type":"n"
+	switch d.Kind {
+	case "nest-sel": // selector nested d.N lists deep
+		return frameOf(cat(reqHead, h("6373656c"), nested(d.N, []byte{0}), typeNew)), nil
+	case "nest-ext": // extension value nested d.N lists deep
+		return frameOf(cat(reqHead, h("63657874a16178"), nested(d.N, []byte{0}), typeNew)), nil
+	case "nest-meta": // lists nested in metadata position
+		return frameOf(cat(h("a163677332a16372737081a3647374617414646d657461"), nested(d.N, []byte{0}), h("65726571696450"), bombID)), nil
+	case "alloc": // declared huge sizes with little behind them, as an extension value
+		heads := []string{"5b7fffffffffffffff", "5b0000000001000000", "7b0000000040000000", "9b00000000009fffff", "9b0000000000a00001",
+			"bb00000000009fffff", "bb7fffffffffffffff", "9a00a00000", "5a02000001", "9b0000000000100000"}
+		hd := h(heads[d.N%len(heads)])
+		return frameOf(cat(reqHead, h("63657874a16178"), hd, []byte{0, 0, 0}, typeNew)), nil
+	case "big-frame": // a legitimate message whose frame body has exactly d.N bytes: one padded block
+		mk := func(l int) ([]byte, error) {
+			data := bytes.Repeat([]byte{7}, l)
+			c, err := cid.Prefix{Version: 1, Codec: cid.Raw, MhType: 0x12, MhLength: 32}.Sum(data)
+			if err != nil {
+				return nil, err
+			}
+			blk, err := blocks.NewBlockWithCid(data, c)
+			if err != nil {
+				return nil, err
+			}
+			var buf bytes.Buffer
+			err = mh.ToNet(thePeer, message.NewMessage(nil, nil, map[cid.Cid]blocks.Block{c: blk}), &buf)
+			return buf.Bytes(), err
+		}
+		probe, err := mk(100000)
+		if err != nil {
+			return nil, err
+		}
+		_, body, ok := splitPrefix(probe)
+		if !ok {
+			return nil, fmt.Errorf("big-frame: cannot split probe")
+		}
+		out, err := mk(d.N - (len(body) - 100000))
+		if err != nil {
+			return nil, err
+		}
+		if _, body, ok = splitPrefix(out); !ok || len(body) != d.N {
+			return nil, fmt.Errorf("big-frame: body has %d bytes, wanted %d", len(body), d.N)
+		}
+		return out, nil
+	}
+	return nil, fmt.Errorf("unknown bomb kind %q", d.Kind)
+}
+
+const bombDeadline = 40 * time.Second
+
+// runBombChild: `d_codec bombchild` reads the input from stdin, observes it like any hostile case and prints
+// the observation as JSON
+func runBombChild() {
+	input, err := io.ReadAll(os.Stdin)
+	if err != nil {
+		fmt.Fprintln(os.Stderr, "bombchild:", err)
+		os.Exit(3)
+	}
+	hn, err := newHarness()
+	if err != nil {
+		fmt.Fprintln(os.Stderr, "bombchild:", err)
+		os.Exit(3)
+	}
+	hp, err := observeCase(hn, 0, input)
+	if err != nil {
+		fmt.Fprintln(os.Stderr, "bombchild:", err)
+		os.Exit(3)
+	}
+	out, _ := json.Marshal(hp)
+	os.Stdout.Write(out)
+	os.Exit(0)
+}
+
+// observeInChild: (observation, "" ) or (zero, how the child died)
+func observeInChild(input []byte) (hparts, string, error) {
+	var hp hparts
+	exe, err := os.Executable()
+	if err != nil {
+		return hp, "", err
+	}
+	ctx, cancel := context.WithTimeout(context.Background(), bombDeadline)
+	defer cancel()
+	cmd := exec.CommandContext(ctx, exe, "bombchild")
+	cmd.Stdin = bytes.NewReader(input)
+	var stdout, stderr bytes.Buffer
+	cmd.Stdout, cmd.Stderr = &stdout, &stderr
+	runErr := cmd.Run()
+	if runErr == nil {
+		if err := json.Unmarshal(stdout.Bytes(), &hp); err != nil {
+			return hp, "", fmt.Errorf("bombchild output: %w", err)
+		}
+		return hp, "", nil
+	}
+	if ee, ok := runErr.(*exec.ExitError); ok && ee.ExitCode() == 3 {
+		return hp, "", fmt.Errorf("bombchild setup failed: %s", firstLine(stderr.String()))
+	}
+	how := firstLine(stderr.String())
+	if ctx.Err() != nil {
+		how = fmt.Sprintf("no answer within %s (killed)", bombDeadline)
+	}
+	return hp, fmt.Sprintf("%s [%v]", how, runErr), nil
+}
+
+func firstLine(s string) string {
+	lines := strings.Split(s, "\n")
+	for _, l := range lines {
+		if strings.Contains(l, "fatal error") || strings.Contains(l, "panic:") || strings.Contains(l, "signal") {
+			return strings.TrimSpace(l)
+		}
+	}
+	for _, l := range lines {
+		if strings.TrimSpace(l) != "" {
+			return strings.TrimSpace(l)
+		}
+	}
+	return "(no output)"
+}
+
+func bombCases(thorough bool) []hostileCase {
+	mk := func(kind string, n int) hostileCase {
+		return hostileCase{Bomb: &bombDesc{Kind: kind, N: n}, Tags: []string{"bomb", "bomb:" + kind}}
+	}
+	cs := []hostileCase{mk("nest-sel", 2000), mk("nest-ext", 100000), mk("nest-sel", 3000000), mk("alloc", 0), mk("alloc", 4),
+		mk("big-frame", network.MessageSizeMax-1)}
+	if thorough {
+		cs = append(cs, mk("nest-ext", 3000000), mk("nest-meta", 100000), mk("nest-sel", 1019), mk("nest-sel", 1021), mk("big-frame", network.MessageSizeMax))
+		for i := 1; i < 10; i++ {
+			if i != 4 {
+				cs = append(cs, mk("alloc", i))
+			}
+		}
+	}
+	return cs
+}
+
 func runHostile(c *drv.Ctx) error {
 	w := cw.New(c.Out, casesHeader, "hcase", []cw.Check{
 		{Name: "MISMATCH", Fn: "hcase_agrees"},
@@ -323,7 +566,7 @@ func runHostile(c *drv.Ctx) error {
 		"wrong kinds, unknown enums, member names, undefined statuses, id lengths, unknown keys, schema field names, missing fields, null selector, priority range, tuple arity, bad CID prefixes, duplicates; " +
 		"hand-assembled CBOR: non-minimal heads, indefinite lengths, duplicate / non-string / tagged keys, tags, half/single floats, NaN/Inf, simple values, integer range, huge counts, deep nesting, corrupt links; " +
 		"length-prefix edits; trailing bytes; byte-level edits; truncation), 10% unmutated, 5% valid-then-malformed, 8% random bytes; each given to the real FromNet and, over a mocknet stream, " +
-		"to the real handleNewStream with a recording Receiver, followed by a well-formed message on a second stream; " +
+		"to the real handleNewStream with a recording Receiver, followed by a well-formed message on a second stream; plus a few resource bombs (nesting 2k/100k/3M deep, declared huge sizes, a frame of MessageSizeMax-1 bytes) each observed the same way in a child process (a dead child is a violation); " +
 		"non-trivial = non-empty input and (a message was delivered or the error came after the length prefix was read); distinct = distinct terms"
 	hn, err := newHarness()
 	if err != nil {
@@ -333,81 +576,45 @@ func runHostile(c *drv.Ctx) error {
 	mh := hn.mh
 	reruns := 0
 
+	crashes := 0
 	run := func(hc hostileCase, kind string) error {
-		input := unhex(hc.Hex)
-		rd := &renderer{}
-		orc := newOracle()
-		scanOracle(orc, input)
-		var violations [][2]string
-
-		first := fromNet(mh, input)
-		if first.kind == "panic" {
-			violations = append(violations, [2]string{"panic in FromNet: " + first.what, "panic-fromnet"})
-		}
-		if first.kind == "msg" {
-			orc.addMsg(first.msg)
-			violations = append(violations, checkDelivered(first.msg)...)
-		}
-
-		// the whole input read by successive FromNet calls on one reader (two kinds of reader must agree)
-		var seqTerms []string
-		for k, sr := range []io.Reader{bytes.NewBuffer(append([]byte(nil), input...)), &dribble{b: input}} {
-			var ts []string
-			for _, g := range fromNetSeq(mh, sr, len(input)+2) {
-				if g.kind == "msg" {
-					orc.addMsg(g.msg)
-					violations = append(violations, checkDelivered(g.msg)...)
-				}
-				if g.kind == "panic" {
-					violations = append(violations, [2]string{"panic in FromNet: " + g.what, "panic-fromnet"})
-				}
-				ts = append(ts, g.term(rd))
-			}
-			if k == 0 {
-				seqTerms = ts
-			} else if strings.Join(ts, ";") != strings.Join(seqTerms, ";") {
-				violations = append(violations, [2]string{"successive FromNet calls give different results for different chunking of the same bytes", "fromnet-chunking"})
-			}
-		}
-
-		idx := w.Stats.Evaluations
-		o, err := hn.observe(idx, 0, input)
-		if err != nil {
-			return err
-		}
-		if o.hang != "" {
-			// a wait expired: rerun the case once before concluding
-			reruns++
-			first := o.hang
-			if o, err = hn.observe(idx, 1, input); err != nil {
+		var input []byte
+		var hp hparts
+		died := ""
+		if hc.Bomb != nil {
+			var err error
+			if input, err = hc.Bomb.input(mh); err != nil {
 				return err
 			}
-			if o.hang != "" {
-				violations = append(violations, [2]string{"hang: " + first + "; on rerun: " + o.hang, "hang"})
+			if hp, died, err = observeInChild(input); err != nil {
+				return err
+			}
+			if died != "" {
+				// nothing was observed: what a crashed node leaves behind
+				crashes++
+				hp = hparts{First: "GPanic", FirstKind: "died", Seq: []string{"GPanic"}, Oracle: "[]"}
+				hp.Viol = [][2]string{{"process died: " + died, "hostile-crash"}}
+			}
+		} else {
+			input = unhex(hc.Hex)
+			var err error
+			if hp, err = observeCase(hn, w.Stats.Evaluations, input); err != nil {
+				return err
 			}
 		}
-		var msgTerms []string
-		for _, m := range o.msgs {
-			orc.addMsg(m)
-			msgTerms = append(msgTerms, rd.msg(m))
-			violations = append(violations, checkDelivered(m)...)
-		}
-		firstTerm := first.term(rd)
-		if len(rd.odd) > 0 {
-			violations = append(violations, [2]string{"delivered message with " + oddKey(rd.odd), "odd-value"})
-		}
+		reruns += hp.Reruns
 		_, _, perr := varint.FromUvarint(input)
-		nontrivial := len(input) > 0 && (len(o.msgs) > 0 || (first.kind == "err" && perr == nil))
+		nontrivial := len(input) > 0 && (len(hp.Msgs) > 0 || (hp.FirstKind == "err" && perr == nil))
 		tags := append([]string{"kind:" + kind}, hc.Tags...)
-		tags = append(tags, "go-first:"+first.kind, fmt.Sprintf("go-delivered:%d", len(o.msgs)))
-		if o.reset {
+		tags = append(tags, "go-first:"+hp.FirstKind, fmt.Sprintf("go-delivered:%d", len(hp.Msgs)))
+		if hp.Reset {
 			tags = append(tags, "go-reset")
 		}
-		term := fmt.Sprintf("(mk_hcase %s %s\n    %s\n    %s %d %s %s %s\n    %s)", hx(input), firstTerm, cw.List(seqTerms), cw.List(msgTerms), o.errors,
-			cw.Bool(o.reset), cw.Bool(o.serving), cw.Bool(first.kind == "panic"), orc.term())
+		term := fmt.Sprintf("(mk_hcase %s %s\n    %s\n    %s %d %s %s %s %s\n    %s)", hx(input), hp.First, cw.List(hp.Seq), cw.List(hp.Msgs), hp.Errors,
+			cw.Bool(hp.Reset), cw.Bool(hp.Serving), cw.Bool(hp.Panic), cw.Bool(died == ""), hp.Oracle)
 		got := w.Add(term, hc, nontrivial, tags...)
 		seen := map[string]bool{}
-		for _, v := range violations {
+		for _, v := range hp.Viol {
 			if !seen[v[0]] {
 				seen[v[0]] = true
 				w.Violation(got, v[0], v[1])
@@ -420,7 +627,7 @@ func runHostile(c *drv.Ctx) error {
 		hn.rc.mu.Lock()
 		stray := hn.rc.stray
 		hn.rc.mu.Unlock()
-		w.Stats.Extra = map[string]any{"reruns_after_expired_wait": reruns, "receiver_events_outside_a_case": stray, "unexpected_stream_errors": hn.odd}
+		w.Stats.Extra = map[string]any{"bomb_children_that_died": crashes, "reruns_after_expired_wait": reruns, "receiver_events_outside_a_case": stray, "unexpected_stream_errors": hn.odd}
 		return w.Flush()
 	}
 	if c.Replay != "" {
@@ -447,6 +654,12 @@ func runHostile(c *drv.Ctx) error {
 	for i := 0; i < n; i++ {
 		input, tags := genHostile(mh, root.Fork())
 		if err := run(hostileCase{Hex: hexs(input), Tags: tags}, "generated"); err != nil {
+			return err
+		}
+	}
+	// resource bombs last (their own child process each; the big ones land in the last shard)
+	for _, hc := range bombCases(c.Thorough()) {
+		if err := run(hc, "bomb"); err != nil {
 			return err
 		}
 	}
